@@ -221,6 +221,17 @@ def inherited_tvmap(cls):
     return out
 
 
+def stype_annotations(cls):
+    """(serialized form annotation, input annotation) of a SerializableType declared with use_annotations=True, else None"""
+    if not getattr(cls, "__use_annotations__", False):
+        return None
+    ser = typing.get_type_hints(cls._serialize, include_extras=True).get("return", typing.Any)
+    hints = typing.get_type_hints(cls._deserialize, include_extras=True)
+    hints.pop("return", None)
+    de = next(iter(hints.values()), typing.Any)
+    return ser, de
+
+
 def scope(ti, tvmap):
     """Type-variable scope inside a generic NamedTuple / TypedDict / dataclass node."""
     if not ti.extra:
